@@ -2,7 +2,7 @@
    (p the 0/1 mask of the kept terms) is sum_i p_i |s_i|^2, given orthonormal left and right Schmidt vectors -
    over any field with an involutive ring morphism conj. *)
 From mathcomp Require Import all_ssreflect all_algebra.
-From QV Require Import Fidelity.
+From QV Require Import Fidelity LowRankAsm.
 Set Implicit Arguments. Unset Strict Implicit. Unset Printing Implicit Defensive.
 Import GRing.Theory.
 Local Open Scope ring_scope.
@@ -14,3 +14,12 @@ Theorem C07_overlap_truncated :
   \tr (adj conj (M U V s) *m M' U V s p) = \sum_i p 0 i * (s 0 i * conj (s 0 i)).
 Proof. exact: overlap_truncated. Qed.
 Print Assumptions C07_overlap_truncated.
+
+(* assembly of the Schmidt circuit (see LowRankAsm.v): singular values and CNOT fan give sum_i s_i e_(jb i) e_(ja i)^T; the
+   circuits of U and V^T, whose columns at the embedded indices are the Schmidt vectors, turn it into sum_i s_i u_i v_i^T *)
+Theorem C07_lowrank_assembly : forall (R : comRingType) (dB dA r : nat) (jb : 'I_r -> 'I_dB) (ja : 'I_r -> 'I_dA) (s : 'I_r -> R)
+  (WB : 'M[R]_dB) (WA : 'M[R]_dA) (U : 'M[R]_(dB, r)) (V : 'M[R]_(dA, r)),
+  (forall i, col (jb i) WB = col i U) -> (forall i, col (ja i) WA = col i V) ->
+  WB *m Psi2 jb ja s *m WA^T = \sum_i s i *: (col i U *m (col i V)^T).
+Proof. move=> R dB dA r jb ja s WB WA U V H1 H2. exact: lowrank_assembly. Qed.
+Print Assumptions C07_lowrank_assembly.
